@@ -54,6 +54,9 @@ PURE_METHODS = {'done', 'cancelled', 'is_initialized', 'is_ready', 'is_finalized
 
 def _is_pure_call(c: ast.Call) -> bool:
     f = c.func
+    last = f.id if isinstance(f, ast.Name) else (f.attr if isinstance(f, ast.Attribute) else '')
+    if last[:1].isupper() and last.endswith(('Error', 'Exception', 'Warning', 'InvalidState', 'UnknownEvent')):
+        return True         # constructing an exception object
     if isinstance(f, ast.Name):
         return f.id in PURE_FUNCS
     if isinstance(f, ast.Attribute):
